@@ -83,6 +83,7 @@ PROPS = {
             ['Parser.feed_byte / feed keep the tokenizer queue drained and only append to the message queue', 'P'],
             ['get_message / pending / __iter__ on a queue of any length: FIFO, None iff empty', 'P'],
             ['ParserQueue.put_bytes / poll / iterpoll', 'PA (queue.Queue FIFO)'],
+            ['Parser() / Tokenizer() establish the invariant: idle, empty, UNBOUNDED queues; alias discipline (a queued token is never changed again)', 'P'],
         ],
         assumptions=['queue.Queue is FIFO (ParserQueue clause)', 'parametricity of the retrieval functions in the queued items'],
         trusted_base=[],
@@ -248,6 +249,8 @@ PROPS = {
         clauses=[
             ['merged_track merges the current tracks, never a stale value', 'P'],
             ['__iter__/length/play/_save read only current contents and are specified as functions of them', 'P'],
+            ['MidiFile(...) stores type/ticks_per_beat/charset/clip, uses the given tracks, loads only without tracks, refuses type outside 0..2; add_track', 'P'],
+            ['save is an observer: writing a track (incl. folding an end_of_track inside it) changes no message; fix_end_of_track yields copies', 'P'],
             ['random edit/observe histories vs freshly built files', 'B'],
         ],
         assumptions=[],
@@ -319,6 +322,8 @@ PROPS = {
             ['receive/poll: drain first, non-blocking never waits, waits only while open and nothing deliverable', 'P'],
             ['iteration over a closed port: pending messages in order, then stops, no exception', 'P'],
             ['MultiPort._receive terminates after one pass (block True/False), collects every open port', 'P'],
+            ['a device that takes messages in and closes in the same poll: receive / iteration / multi_receive / MultiPort hand every one out', 'P'],
+            ['constructors build what the other contracts start from: open, own re-entrant lock, queue is the parser queue (unbounded), _open once', 'P'],
         ],
         assumptions=['device contract for _open/_close/_send/_receive', 'time.sleep returns'],
         trusted_base=[],
